@@ -13,6 +13,8 @@ Decided:
   R12.3  re-schedule guard: the work list excludes tasks whose `scheduled` attribute is set;
          TaskScenario.schedule returns at once for a scheduled task; Task.schedule has no other caller
   R12.4  defaults are cloned: attribute reset / inherit go through deep_clone; no mutable default arguments
+  R12.5  census of class-/module-level mutable containers: none has a run-time writer reachable from an entry point
+         (a per-process table filled while a project is processed answers the next project from stale entries)
 Trusted: CPython float determinism, lark, dateutil.
 """
 from __future__ import annotations
@@ -50,6 +52,99 @@ TRIAGE = {
     ("report", "temp_output_dir.glob('*.csv')"): "directory listing used for membership / emptiness tests only",
     ("find_output_files", "*"): "helper without callers",
 }
+
+
+def shared_container_census(ctx: Ctx, rid: str, reach, floor: int = 8):
+    """Class-/module-level mutable containers with a run-time writer reachable from `reach` (C12 R12.5 / C16 R16.5)."""
+    repo = ctx.repo
+    # every class-level / module-level mutable container with a run-time writer reachable from an entry point carries
+    # state from one run into the next in the same process (C16-style per-project tables that are really per-process)
+    MUT = ("dict", "list", "set", "defaultdict", "OrderedDict", "deque", "Counter")
+    MUTATORS = ("append", "add", "update", "setdefault", "pop", "popitem", "clear", "extend", "insert", "remove", "discard", "appendleft")
+
+    def is_mut(v):
+        return isinstance(v, (ast.Dict, ast.List, ast.Set, ast.DictComp, ast.ListComp, ast.SetComp)) or \
+            (isinstance(v, ast.Call) and norm(v.func).split(".")[-1] in MUT)
+    shared = {}          # ("cls"|"mod", owner, name) -> lineno
+    for m in repo.by_rel.values():
+        for st in m.tree.body:
+            bodies = [("mod", m.rel, [st])]
+            if isinstance(st, ast.ClassDef):
+                bodies = [("cls", st.name, st.body)]
+            for kind_, owner, body in bodies:
+                for s2 in body:
+                    tg = []
+                    if isinstance(s2, ast.Assign) and is_mut(s2.value):
+                        tg = [t for t in s2.targets if isinstance(t, ast.Name)]
+                    elif isinstance(s2, ast.AnnAssign) and s2.value is not None and is_mut(s2.value) and isinstance(s2.target, ast.Name):
+                        tg = [s2.target]
+                    for t in tg:
+                        if not t.id.startswith("__"):
+                            shared[(kind_, owner, t.id)] = (m.rel, s2.lineno)
+    SHARED_TRIAGE = {
+        ("cls", "Log", "_segments"): "call-stack of the (unused) Log tracer: pushed and popped in pairs, never read on an output path",
+        ("cls", "Log", "_stack"): "as above",
+    }
+    n_sh = 0
+    for (kind_, owner, name), (rel, ln) in sorted(shared.items()):
+        writers = []
+        for fn in reach:
+            if kind_ == "mod" and fn.module.rel != rel:
+                continue
+            in_cls = fn.cls is not None and (fn.cls.name == owner or owner in [b for b in getattr(fn.cls, "bases", [])])
+            for x in own_nodes(fn):
+                base = None
+                if isinstance(x, (ast.Assign, ast.AugAssign, ast.AnnAssign, ast.Delete)):
+                    tgs = x.targets if isinstance(x, (ast.Assign, ast.Delete)) else [x.target]
+                    for t in tgs:
+                        if isinstance(t, ast.Subscript):
+                            base = t.value
+                elif isinstance(x, ast.Call) and isinstance(x.func, ast.Attribute) and x.func.attr in MUTATORS:
+                    base = x.func.value
+                if base is None:
+                    continue
+                t = norm(base)
+                hit = (kind_ == "cls" and (t == f"{owner}.{name}" or (in_cls and t in (f"self.{name}", f"cls.{name}", f"type(self).{name}",
+                                                                                            f"self.__class__.{name}")))) or \
+                      (kind_ == "mod" and t == name and not any(isinstance(y, ast.Assign) and any(norm(z) == name for z in y.targets)
+                                                                 for y in own_nodes(fn)))
+                if hit:
+                    writers.append(f"{fn.qual}:{x.lineno}")
+        # an instance attribute of the same name assigned in a method shadows the class-level container
+        if kind_ == "cls" and writers:
+            shadow = any(isinstance(y, ast.Assign) and any(norm(z) == f"self.{name}" for z in y.targets)
+                         for f_ in repo.all_funcs() if f_.cls is not None and f_.cls.name == owner for y in own_nodes(f_))
+            if shadow:
+                writers = []
+        n_sh += 1
+        reason = SHARED_TRIAGE.get((kind_, owner, name))
+        ok = not writers or bool(reason)
+        ctx.ob(rid, f"shared container {owner}.{name} ({rel}:{ln}): run-time writers {sorted(set(writers))[:4]}", f"{rel}:{ln}", ok,
+               (reason if writers else "constant table: no reachable function mutates it") if ok else
+               f"the {('class' if kind_ == 'cls' else 'module')}-level container {name} is filled while a project is processed and is never "
+               "emptied: a later project in the same process is answered from entries the earlier one left behind",
+               key=f"{rid}|{owner}.{name}|writers")
+    ctx.floor(rid, floor)
+
+
+def _set_typed(v, setvars) -> bool:
+    """Syntactically a set: literal, comprehension, set()/frozenset(), a set operator / method applied to one, or a known name."""
+    if isinstance(v, (ast.Set, ast.SetComp)):
+        return True
+    if isinstance(v, ast.Name):
+        return v.id in setvars
+    if isinstance(v, ast.Call):
+        f = norm(v.func)
+        if f in ("set", "frozenset"):
+            return True
+        if isinstance(v.func, ast.Attribute) and v.func.attr in ("union", "intersection", "difference", "symmetric_difference", "copy") \
+                and _set_typed(v.func.value, setvars):
+            return True
+    if isinstance(v, ast.BinOp) and isinstance(v.op, (ast.Sub, ast.BitOr, ast.BitAnd, ast.BitXor)):
+        return _set_typed(v.left, setvars) or _set_typed(v.right, setvars)
+    if isinstance(v, ast.IfExp):
+        return _set_typed(v.body, setvars) or _set_typed(v.orelse, setvars)
+    return False
 
 
 def _membership_only(fn, call, depth=0) -> bool:
@@ -128,11 +223,11 @@ def run(ctx: Ctx):
     # iteration over sets
     for fn in sorted(reach, key=lambda f: f.key):
         setvars = set()
-        for x in own_nodes(fn):
-            if isinstance(x, (ast.Assign, ast.AnnAssign)):
+        for x in list(own_nodes(fn)) * 2:
+            if isinstance(x, (ast.Assign, ast.AnnAssign)) and x.value is not None:
                 v = x.value
                 tg = x.targets if isinstance(x, ast.Assign) else [x.target]
-                is_set = isinstance(v, (ast.Set, ast.SetComp)) or (isinstance(v, ast.Call) and norm(v.func) in ("set", "frozenset"))
+                is_set = _set_typed(v, setvars)
                 if isinstance(x, ast.AnnAssign) and "set[" in norm(x.annotation):
                     is_set = True
                 if is_set:
@@ -147,8 +242,7 @@ def run(ctx: Ctx):
                 if norm(x.func) not in ("sorted", "max", "min"):
                     its.append(x.args[0])
             for it in its:
-                bad = (isinstance(it, ast.Name) and it.id in setvars) or isinstance(it, (ast.Set, ast.SetComp)) or \
-                      (isinstance(it, ast.Call) and norm(it.func) in ("set", "frozenset"))
+                bad = _set_typed(it, setvars)
                 if bad:
                     # len({...}) style counting is fine, iteration is not
                     par = getattr(x, "_parent", None)
@@ -197,8 +291,8 @@ def run(ctx: Ctx):
     gs = cfg_of(ps)
 
     def stmt_with(pred):
-        return [nd for nd in gs.nodes if nd.kind == "stmt" and nd.ast is not None and any(
-            isinstance(c, ast.Call) and pred(c) for c in ast.walk(nd.ast))]
+        return [nd for nd in gs.nodes if nd.kind in ("stmt", "if", "while") and nd.ast is not None and any(
+            isinstance(c, ast.Call) and pred(c) for c in ast.walk(nd.ast.test if isinstance(nd.ast, (ast.If, ast.While)) else nd.ast))]
 
     m1 = stmt_with(lambda c: norm(c.func) == "AttributeBase.setMode" and c.args and getattr(c.args[0], "value", None) == 1)
     m2 = stmt_with(lambda c: norm(c.func) == "AttributeBase.setMode" and c.args and getattr(c.args[0], "value", None) == 2)
@@ -259,6 +353,8 @@ def run(ctx: Ctx):
                "a run changes the configuration of a process-wide singleton: later runs in the same process behave differently",
                key=f"R12.2|{cls}|writers")
 
+    # ---------------------------------------------------------------- R12.5 census of shared mutable containers
+    shared_container_census(ctx, "R12.5", reach)
     # ---------------------------------------------------------------- R12.3
     ss = repo.func("Project.scheduleScenario")
     for x in own_nodes(ss):
